@@ -115,22 +115,36 @@ var (
 	c16TagVals   = []string{"", "v", "w", "k00", "a,b", "creator=terway"}
 )
 
+// c16MaxTags: tag maps of 0..30 entries ("any number of tags"); sizes around the cloud
+// API's limit of 20 tags per request are over-weighted.
+const c16MaxTags = 30
+
 func c16GenTags(t *rapid.T, maxTags int) []c16Tag {
 	n := 0
-	if maxTags < 4 {
+	switch {
+	case maxTags < 4:
 		n = rapid.IntRange(0, maxTags).Draw(t, "ntags")
-	} else {
+	case maxTags < 24:
 		n = rapid.OneOf(
 			rapid.IntRange(0, 1),
 			rapid.IntRange(2, 3),
 			rapid.IntRange(2, 3),
 			rapid.IntRange(4, maxTags),
 		).Draw(t, "ntags")
+	default:
+		n = rapid.OneOf(
+			rapid.IntRange(0, 1),
+			rapid.IntRange(2, 3),
+			rapid.IntRange(2, 3),
+			rapid.IntRange(4, 12),
+			rapid.IntRange(19, 23),
+			rapid.IntRange(13, maxTags),
+		).Draw(t, "ntags")
 	}
 	if n == 0 {
 		return nil
 	}
-	all := make([]int, 12)
+	all := make([]int, c16MaxTags)
 	for i := range all {
 		all[i] = i
 	}
@@ -261,7 +275,7 @@ func c16Mutate(t *rapid.T, p c16Param, maxTags int) c16Param {
 		q.Zone = other(q.Zone, c16Zones, "zone")
 	case 13: // add a tag
 		if len(q.Tags) < maxTags {
-			for i := 0; i < 12; i++ {
+			for i := 0; i < c16MaxTags; i++ {
 				k := fmt.Sprintf("k%02d", i)
 				found := false
 				for _, x := range q.Tags {
@@ -594,6 +608,15 @@ func (m *c16Model) issue(p c16Param, tok string, id int) string {
 	return ""
 }
 
+// parked is the number of tokens handed back by failed attempts and not reused yet.
+func (m *c16Model) parked() int {
+	n := 0
+	for _, r := range m.returned {
+		n += len(r)
+	}
+	return n
+}
+
 // fail: the attempt holding tok failed and its rollback ran.
 func (m *c16Model) fail(p c16Param, tok string) {
 	k := p.key()
@@ -641,8 +664,12 @@ func c16PoolLabels(c *vt.Ctx, pool []c16Param) {
 		}
 	}
 	switch {
+	case maxTags > 20:
+		c.Label("tags:21+")
+	case maxTags >= 19:
+		c.Label("tags:19-20")
 	case maxTags >= 8:
-		c.Label("tags:8+")
+		c.Label("tags:8-18")
 	case maxTags >= 4:
 		c.Label("tags:4-7")
 	case maxTags >= 2:
@@ -650,6 +677,19 @@ func c16PoolLabels(c *vt.Ctx, pool []c16Param) {
 	default:
 		c.Label("tags:0-1")
 	}
+}
+
+// c16NewGen builds the real key generator the documented way: the capacity of its cache
+// comes from IDEMPOTENT_KEY_CACHE_SIZE, read when the generator is built (0 = unset,
+// default capacity 500).
+func c16NewGen(capacity int) *SimpleIdempotentKeyGenerator {
+	c16Setup()
+	if capacity <= 0 {
+		return NewIdempotentKeyGenerator()
+	}
+	_ = os.Setenv("IDEMPOTENT_KEY_CACHE_SIZE", fmt.Sprint(capacity))
+	defer os.Unsetenv("IDEMPOTENT_KEY_CACHE_SIZE")
+	return NewIdempotentKeyGenerator()
 }
 
 var c16Once sync.Once
